@@ -4,5 +4,5 @@ set -u
 wt=$(mktemp -d /tmp/wt_orig.XXXXXX); rmdir $wt
 git -C /repo worktree add -q --detach $wt 0933270 || exit 2
 sc=$(mktemp -d /tmp/vsc.XXXXXX); cp /verif/properties.jsonl $sc/
-/verif/bin/vcheck -repo $wt -property all -verif $sc | grep "^VIOLATION" | sed 's/ replay=.*#/ /' | sort | uniq -c | sort -k2 
+/verif/bin/vcheck -repo $wt -property all -verif $sc | grep "^VIOLATION" | sed 's/ replay=[^#]*#/ /' | sort | uniq -c | sort -k2 
 git -C /repo worktree remove --force $wt; rm -rf $sc
